@@ -23,6 +23,7 @@ type TownOpts struct {
 	RichLinks bool // C20: many links, attachments and media with awkward strings
 	MaxPosts  int
 	Paged     bool // outboxes / reply collections spread over pages
+	Markdown  bool // some bodies are Markdown
 }
 
 type TLink struct {
@@ -51,6 +52,7 @@ type TPost struct {
 	BodyLinks           []string
 	Attachments         []TLink
 	Media               []TLink
+	MediaHasString      bool // some url entry is a bare string (shorthand)
 	Published           time.Time
 	Doc                 Doc
 }
@@ -86,13 +88,24 @@ var awkwardLinks = []string{
 	"https://media.example/v/1.mp4", "https://media.example/a b.png", "https://media.example/q?x=1&y=$(id)", "https://media.example/%url",
 	"https://media.example/-rf", "https://media.example/'quoted'", "https://media.example/\"dq\"", "https://media.example/%25mimetype",
 	"https://media.example/;rm", "https://media.example/a%20b", "https://media.example/ü", "https://media.example/`x`",
+	"https://media.example/talk.mp4#t=90,120", "https://media.example/doc#%url", "https://media.example/p?a=1#frag ment",
 }
 var awkwardMimes = []string{"image/png", "video/mp4", "audio/ogg", "text/html", "application/x-%url", "image/svg+xml", "video/x-$(id)", "", "", "image/jpeg; charset=x",
-	"%url/png", "image/%url", "%mimetype/%subtype", "%supertype/%url", "video/%mimetype"}
+	"%url/png", "image/%url", "%mimetype/%subtype", "%supertype/%url", "video/%mimetype",
+	"pdf", "image/", "/png", "not a type", "application/x y"}
+
+var hostileHrefs = []string{"https://media.example/%1B%5B2J", "https://media.example/a%07b%C2%9B31m", "https://media.example/%7F%08%08x", "https://media.example/q?x=%1B]0;t%07",
+	"https://media.example/%0D%0A%1Bc", "https://media.example/%c2%85%1b%5b1%3b1H"}
 
 func (tn *Town) link(kind string) TLink {
 	t := tn.f.t
 	l := TLink{Kind: kind}
+	if tn.Opts.Hostile && t.Chance(1, 2) {
+		// no name: the address itself becomes the label
+		l.Href = hostileHrefs[t.Draw(len(hostileHrefs))]
+		l.Mime = []string{"image/png", "", "x\u001b/y"}[t.Draw(3)]
+		return l
+	}
 	if tn.Opts.RichLinks {
 		l.Href = awkwardLinks[t.Draw(len(awkwardLinks))]
 		l.Mime = awkwardMimes[t.Draw(len(awkwardMimes))]
@@ -277,6 +290,11 @@ func (tn *Town) install() {
 		content, _ := tn.body(p)
 		d := Doc{"@context": "https://www.w3.org/ns/activitystreams", "id": p.ID, "type": p.Kind, "name": tn.spice(p.Tok), "content": content,
 			"published": p.Published.Format(time.RFC3339)}
+		if !tn.Opts.Hostile && tn.Opts.Markdown && t.Chance(1, 3) {
+			d["mediaType"] = "text/markdown"
+			d["content"] = "some *markdown* about " + p.Tok[:len(p.Tok)-1] + "z and [a link](https://media.example/md)"
+			p.BodyLinks = []string{"https://media.example/md"}
+		}
 		if tn.Opts.Hostile {
 			switch t.Draw(5) {
 			case 1:
@@ -313,6 +331,7 @@ func (tn *Town) install() {
 			var m []any
 			for _, l := range p.Media {
 				if t.Chance(1, 3) {
+					p.MediaHasString = true
 					m = append(m, l.Href) // shorthand: a bare string
 				} else {
 					m = append(m, l.doc())
